@@ -1139,7 +1139,13 @@ def _parse_cached(
 
             # Don't cache None that _parse() returns on syntax errors
             if tree is not None:
-                pickled_data = pickle.dumps(tree)
+                try:
+                    pickled_data = pickle.dumps(tree)
+                except RecursionError:
+                    # A deeply nested tree (e.g. a sum of a few hundred terms) cannot be
+                    # pickled within the interpreter's recursion limit. Return it uncached.
+                    logger.debug(f"Model with hash '{txt_hash}' is nested too deeply to be cached")
+                    return tree
 
                 # Note that we do an 'INSERT OR REPLACE' because concurrent access
                 # might mean two processes/threads try to insert an entry
